@@ -32,7 +32,11 @@ VARS = {'in_channels': 0, 'in_features': 0, 'out_channels': 1, 'out_features': 1
 # arguments as EVar 0 / EVar 1 and must be provably equal to the hand definition for all rationals.
 PINS = [('ne16_latency', 'FloorDivideSTE', 'floor_divide'), ('ne16_latency', 'ModuloSTE', 'modulo'), ('ne16_latency', 'DivAndCeilSTE', 'div_and_ceil'),
         ('diana_latency', 'FloorSTE', 'floor_ste'), ('diana_latency', '_floor', 'floor_ste'),
-        ('gap8_latency', 'FloorSTE', 'floor_ste'), ('gap8_latency', '_floor', 'floor_ste')]
+        ('gap8_latency', 'FloorSTE', 'floor_ste'), ('gap8_latency', '_floor', 'floor_ste'),
+        ('diana_latency', 'GateSTE', 'gate')]
+# whole functions of a hand-modelled file that ARE within the whitelist, pinned to their Gallina definition applied to the
+# environment entries listed (module, function taking `spec`, Gallina function, argument variables)
+SPEC_PINS = [('diana_latency', '_digital_cycles', 'diana_digital_cycles', ('V_cin', 'V_cout', 'V_groups', 'V_k0', 'V_k1', 'V_o2', 'V_o3'))]
 V_K0, V_K1, V_O2, V_O3, V_BIAS = 2, 3, 4, 5, 8
 NVARS = 11
 VAR_NAMES = ['cin', 'cout', 'k0', 'k1', 'o2', 'o3', 'w_prec', 'in_prec', 'bias', 'groups', 'theta']
@@ -66,7 +70,16 @@ class DictSel:         # <dict literal>[term]  waiting for the second index
 
 
 def is_term(v):
-    return isinstance(v, tuple) and v and isinstance(v[0], str) and v[0] in ('var', 'const', 'add', 'mul', 'sub', 'div', 'floor', 'lut2')
+    return isinstance(v, tuple) and v and isinstance(v[0], str) and v[0] in ('var', 'const', 'add', 'mul', 'sub', 'div', 'floor', 'lut2', 'gate')
+
+
+class GeTest:          # the boolean tensor `a >= b`, waiting for .float()
+    def __init__(self, a, b):
+        self.a, self.b = a, b
+
+
+def has_gate(t):
+    return isinstance(t, tuple) and (t[0] == 'gate' or any(has_gate(x) for x in t[1:] if isinstance(x, tuple)))
 
 
 def const(x):
@@ -231,6 +244,9 @@ class Translator:
     def stmt(self, m, st, env, guards, depth):
         if isinstance(st, ast.Expr) and isinstance(st.value, ast.Constant) and isinstance(st.value.value, str):
             return None                                    # docstring
+        if isinstance(st, ast.Expr) and isinstance(st.value, ast.Call) and isinstance(st.value.func, ast.Attribute) \
+                and isinstance(st.value.func.value, ast.Name) and st.value.func.value.id == 'ctx' and 'ctx' not in env:
+            return None                                    # autograd bookkeeping of a Function.forward (ctx.save_for_backward(..))
         if isinstance(st, ast.Return):
             if st.value is None:
                 raise Untranslatable('bare return')
@@ -321,6 +337,11 @@ class Translator:
             if type(e.op) in ops:
                 return binop(ops[type(e.op)], a, b)
             raise Untranslatable('operator %s (line %d of %s)' % (type(e.op).__name__, e.lineno, m.name))
+        if isinstance(e, ast.Compare) and len(e.ops) == 1 and isinstance(e.ops[0], ast.GtE):
+            a, b = ev(e.left), ev(e.comparators[0])
+            if is_term(a) and is_term(b):
+                return GeTest(a, b)
+            raise Untranslatable('>= on non-numeric values (line %d of %s)' % (e.lineno, m.name))
         if isinstance(e, (ast.Tuple, ast.List)):
             return [ev(x) for x in e.elts]
         if isinstance(e, ast.Dict):
@@ -411,6 +432,12 @@ class Translator:
             if e.keywords:
                 raise Untranslatable('keyword arguments in a call (line %d of %s)' % (e.lineno, m.name))
             f = e.func
+            # (a >= b).float(): the 0/1 gate (only the hand-modelled files use it; pinned to Model/CostFns.gate)
+            if isinstance(f, ast.Attribute) and f.attr == 'float' and not e.args:
+                v = ev(f.value)
+                if isinstance(v, GeTest):
+                    return ('gate', v.a, v.b)
+                raise Untranslatable('.float() of something that is not a >= comparison (line %d of %s)' % (e.lineno, m.name))
             # x.item()
             if isinstance(f, ast.Attribute) and f.attr == 'item' and not e.args:
                 v = ev(f.value)
@@ -506,6 +533,8 @@ def translate_repo(repo, modules=MODULES):
                 if cn not in out['functions'] and cn not in out['errors']:
                     try:
                         guards, body = tr.translate_function(mod, fname)
+                        if has_gate(body) or any(has_gate(g) for g, _ in guards):
+                            raise Untranslatable('a >= gate in a translated cost function (the Expr embedding has no such node)')
                         out['functions'][cn] = {'module': mod, 'py_name': fname, 'guards': guards, 'body': body}
                     except Untranslatable as ex:
                         out['errors'][cn] = 'untranslatable: %s' % ex
@@ -519,6 +548,17 @@ def translate_repo(repo, modules=MODULES):
         pn = 'pin__%s__%s' % (mod, name.lstrip('_'))
         try:
             out['pins'][pn] = {'module': mod, 'py_name': name, 'gallina': gallina, 'term': tr.translate_helper(mod, name)}
+        except (Untranslatable, OSError, SyntaxError) as ex:
+            out['errors'][pn] = 'untranslatable: %s' % ex
+        except RecursionError:
+            out['errors'][pn] = 'untranslatable: recursion'
+    for mod, name, gallina, argvars in SPEC_PINS:
+        pn = 'pin__%s__%s' % (mod, name.lstrip('_'))
+        try:
+            guards, body = tr.translate_function(mod, name)
+            if guards:
+                raise Untranslatable('%s.%s has asserts' % (mod, name))
+            out['pins'][pn] = {'module': mod, 'py_name': name, 'gallina': gallina, 'term': body, 'args': argvars}
         except (Untranslatable, OSError, SyntaxError) as ex:
             out['errors'][pn] = 'untranslatable: %s' % ex
         except RecursionError:
@@ -595,6 +635,22 @@ def coq_term(t):
     return '(%s %s %s)' % ({'add': 'EAdd', 'sub': 'ESub', 'mul': 'EMul', 'div': 'EDiv'}[tag], coq_term(t[1]), coq_term(t[2]))
 
 
+def gallina_term(t):
+    """a term as a Gallina expression over Q and the environment r (used by the pins: no Expr node needed)"""
+    tag = t[0]
+    if tag == 'var':
+        return '(r %d%%nat)' % t[1]
+    if tag == 'const':
+        return q(t[1])
+    if tag == 'floor':
+        return '(inject_Z (Qfloor %s))' % gallina_term(t[1])
+    if tag == 'gate':
+        return '(gate %s %s)' % (gallina_term(t[1]), gallina_term(t[2]))
+    if tag in ('add', 'sub', 'mul', 'div'):
+        return '(%s %s %s)' % (gallina_term(t[1]), {'add': '+', 'sub': '-', 'mul': '*', 'div': '/'}[tag], gallina_term(t[2]))
+    raise Untranslatable('no Gallina form for %s' % tag)
+
+
 def obligations(res):
     """names of the generated lemmas, in file order: [(lemma name, kind, function/spec)]"""
     obs = []
@@ -620,7 +676,7 @@ def emit_coq(res, skip=()):
     L.append('(* GENERATED by /verif/translator/cost2coq.py from plinio/cost/*.py of the tree under test — do not edit.')
     L.append('   One [cfun] per registered cost function, the registration table of every CostSpec, and the')
     L.append('   reflective obligations (okb / posb by vm_compute, depthwise = generic per group by ring). *)')
-    L.append('From Coq Require Import QArith List String Ring.')
+    L.append('From Coq Require Import QArith Qround List String Ring.')
     L.append('Require Import Plinio.Base.Qx Plinio.Base.Expr Plinio.Model.CostFns.')
     L.append('Import ListNotations.')
     L.append('Open Scope Q_scope.')
@@ -660,8 +716,9 @@ def emit_coq(res, skip=()):
         if pn in skip:
             continue
         L.append('(* %s.%s computes, on ALL rationals, what the hand model Model/CostFns.v says *)' % (pin['module'], pin['py_name']))
-        L.append('Lemma %s : forall r, eval r %s == %s (r 0%%nat) (r 1%%nat).' % (pn, coq_term(pin['term']), pin['gallina']))
-        L.append('Proof. intro r. cbn [eval]. unfold %s. first [reflexivity | ring | field]. Qed.' % pin['gallina'])
+        args = ' '.join('(r %s)' % a for a in pin['args']) if 'args' in pin else '(r 0%nat) (r 1%nat)'
+        L.append('Lemma %s : forall r : nat -> Q, %s == %s %s.' % (pn, gallina_term(pin['term']), pin['gallina'], args))
+        L.append('Proof. intro r. unfold %s, floor_ste, V_cin, V_cout, V_groups, V_k0, V_k1, V_o2, V_o3. cbv zeta. first [reflexivity | ring | field]. Qed.' % pin['gallina'])
         L.append('')
     for sp in res['specs']:
         ents = '; '.join('("%s"%%string, "%s"%%string, %s)' % (p, cn, cn) for p, _, cn in sp['entries'] if cn in res['functions'])
